@@ -180,6 +180,20 @@ func TestVerifC08Loop(t *testing.T) {
 		}(pi, p)
 	}
 	wg.Wait()
+	// the same loop under other values of -proxy-timeout (0 = no timeout for http.Client, and one far below the back-off cap):
+	// the flag bounds a call to the proxy, it has no say in the wait between calls
+	saved := *proxyTimeout
+	for _, pt := range []time.Duration{0, 50 * time.Millisecond} {
+		*proxyTimeout = pt
+		p := append(fails(11, 2), 0, 1, 1)
+		gaps, n, ok := verifRunLoopPattern(p)
+		if !ok {
+			out.emit(map[string]interface{}{"kind": "loop", "pattern": p, "error": "poll loop did not stop", "proxy_timeout_ms": pt.Milliseconds()})
+			continue
+		}
+		out.emit(map[string]interface{}{"kind": "loop", "pattern": p, "calls": n, "reps": 1, "gaps": gaps, "proxy_timeout_ms": pt.Milliseconds()})
+	}
+	*proxyTimeout = saved
 }
 
 func verifRunLoopPattern(p []int) ([]int64, int, bool) {
